@@ -1,0 +1,10 @@
+//go:build verif
+
+package pcs
+
+// VerifQEIdentityVerify forwards to the package-private (*QEIdentity).verify
+// (the comparison of a QE identity with a QE report, including the parsing of
+// its hex-encoded MISCSELECT / ATTRIBUTES masks).
+func VerifQEIdentityVerify(qe *QEIdentity, report *SgxReport) error {
+	return qe.verify(report)
+}
